@@ -412,6 +412,11 @@ class RequestParam(ClientAuthnMethod):
             logger.info("%s" % sanitize(err))
             raise ClientAuthenticationError("Could not verify client_assertion.")
 
+        # An encrypted object whose content is not a signed JWT comes back as plain claims, with
+        # no signature header: nothing in it has been authenticated.
+        if not getattr(_jwt, "jws_header", None):
+            raise ValueError("The request object is not signed")
+
         # If there is a jti use it to make sure one-time usage is true
         _jti = _jwt.get("jti")
         if _jti:
